@@ -115,7 +115,7 @@ def levels(topo, root, result, env, maxlevels=400):
                         nxt.append((j, v))
                     elif k2 in ("list", "tupv"):
                         conv &= isinstance(v, (list, tuple))
-                        nxt += [(j, x) for x in v]
+                        nxt += [(j, x) for x in (v if isinstance(v, (list, tuple)) else [])]
                     elif k2 == "dict":
                         nxt += [(j, x) for x in (v.values() if isinstance(v, dict) else [])]
             out.append({"lvl": lvl, "cls": i, "right": right, "conv": conv})
@@ -165,7 +165,10 @@ def observe_case(topo, root, variant, depths, events, meta):
             lev(d, "unmarshal", {"k": "raised", "e": "RecursionError"}); continue
         except Exception as e:
             lev(d, "unmarshal", {"k": "raised", "e": type(e).__name__}); continue
-        ls = levels(topo, root, res, env)
+        try:
+            ls = levels(topo, root, res, env)
+        except Exception:      # a result so malformed that it cannot be walked is a failed level, not a harness crash
+            ls = [{"lvl": 0, "cls": root[1], "right": False, "conv": False}]
         deepest = max((x["lvl"] for x in ls), default=-1)
         want_deepest = max((x["lvl"] for x in levels(topo, root, want, env)), default=-1)
         for x in ls:
